@@ -5,6 +5,10 @@ package sessx
 //	H <mode> <alpha0> <beta0> <step> <step> …
 //	step  := <kind>^<alpha edits>^<beta edits>^<obs alpha>^<obs beta>
 //	kind  := n                      fault-free cycle
+//	       | h                      edits and one flush request on a session that halted
+//	                                and was not paused/resumed since (must be refused;
+//	                                every other step on a halted session is preceded by
+//	                                the user's pause + resume)
 //	       | f,<op>,<leaf name>     <op> on <leaf name> fails during the cycle
 //	       | c,<op>,<leaf name>     the session is cancelled when <op> on <leaf
 //	                                name> is first reached (then paused, resumed)
@@ -24,7 +28,7 @@ package sessx
 // FIFOs are U, links with absolute targets X!p, file digests by content id);
 // conflict roots sorted, comma separated, '-' if none (and '-' when the cycle
 // halted or was cancelled); status run | halt-emptied | halt-rootdel |
-// halt-roottype | cancelled | error; problems = two flags (alpha, beta
+// halt-roottype | halted (an `h` step was refused) | cancelled | error; problems = two flags (alpha, beta
 // transition problems reported) after a fault-free cycle, "--" otherwise.
 
 import (
@@ -68,9 +72,9 @@ func encEdits(edits []Edit, side byte) string {
 }
 
 func (s *Step) enc() string {
-	kind := "n"
+	kind := string(s.Kind)
 	obsA, obsB := "-", "-"
-	if s.Kind != 'n' {
+	if s.Kind == 'f' || s.Kind == 'c' {
 		kind = string(s.Kind) + "," + s.Op + "," + s.Name
 		obsA, obsB = hx.EncEntry(s.ObsA), hx.EncEntry(s.ObsB)
 	}
@@ -114,6 +118,8 @@ func ParseHistory(line string) (*History, error) {
 		k := strings.Split(p[0], ",")
 		switch {
 		case p[0] == "n":
+		case p[0] == "h":
+			st.Kind = 'h'
 		case len(k) == 3 && (k[0] == "f" || k[0] == "c"):
 			st.Kind, st.Op, st.Name = k[0][0], k[1], k[2]
 		default:
@@ -257,6 +263,7 @@ func (r *Runner) Run(idx int, g *Gen, h *History) (res Result) {
 		nSteps = g.P.MinSteps + g.R.Intn(g.P.MaxSteps-g.P.MinSteps+1)
 	}
 	quiesce := false
+	haltPending := false // the session halted and the user has not paused/resumed it yet
 	for i := 0; i < nSteps; i++ {
 		var st Step
 		beforeA, beforeB := curA, curB
@@ -266,7 +273,10 @@ func (r *Runner) Run(idx int, g *Gen, h *History) (res Result) {
 			if i > 0 && !quiesce {
 				st.Edits, afterA, afterB = g.Edits(curA.tree, curB.tree, 3)
 			}
-			if !quiesce {
+			if haltPending && g.R.Intn(100) < g.P.HaltedFlushPct {
+				// The user keeps editing and asks for a flush without pausing/resuming.
+				st.Kind = 'h'
+			} else if !quiesce {
 				x := g.R.Intn(100)
 				if x < g.P.FaultPct+g.P.CancelPct {
 					if cands := FaultChoices(st.Edits, curA.tree, curB.tree, afterA, afterB, i == 0); len(cands) > 0 {
@@ -298,16 +308,34 @@ func (r *Runner) Run(idx int, g *Gen, h *History) (res Result) {
 			return fail(err)
 		}
 		preA, preB := curA, curB
+		if haltPending && st.Kind != 'h' {
+			// The user intervenes: pause + resume starts a fresh loop.
+			if err := s.Pause(); err != nil {
+				return fail(err)
+			}
+			if err := s.Resume(); err != nil {
+				return fail(err)
+			}
+			haltPending = false
+		}
 		// The cycle.
 		var fault *Fault
-		if st.Kind != 'n' {
+		if st.Kind == 'f' || st.Kind == 'c' {
 			fault = &Fault{Op: st.Op, Name: st.Name}
 			if st.Kind == 'c' {
 				fault.Cancel = func() { s.Cancel() }
 			}
 			Arm(fault)
 		}
-		flushErr := s.Flush()
+		var flushErr error
+		refused := false
+		if st.Kind == 'h' && haltPending {
+			// One plain flush request (no retry): a halted session must refuse it.
+			flushErr = s.env.Mgr.Flush(context.Background(), s.sel, "", false)
+			refused = flushErr != nil
+		} else {
+			flushErr = s.Flush()
+		}
 		if fault != nil {
 			Disarm(fault)
 			if fault.Fired() == 0 {
@@ -324,6 +352,8 @@ func (r *Runner) Run(idx int, g *Gen, h *History) (res Result) {
 				return fail(err)
 			}
 			status = "cancelled"
+		} else if refused {
+			status = "halted"
 		} else {
 			if state, err = s.State(); err != nil {
 				return fail(err)
@@ -341,18 +371,23 @@ func (r *Runner) Run(idx int, g *Gen, h *History) (res Result) {
 		if archErr == nil {
 			archTree = CanonArchive(archive.Content)
 		}
-		if st.Kind != 'n' {
+		if st.Kind == 'f' || st.Kind == 'c' {
 			st.ObsA, st.ObsB = curA.tree, curB.tree
 		}
 		stillHalted := true
+		if st.Kind == 'h' && haltPending {
+			stillHalted = refused
+			haltPending = refused
+		}
 		if strings.HasPrefix(status, "halt-") {
 			// A halted session stays halted: a further flush request (one plain
-			// call, no retry) must be refused.
+			// call, no retry) must be refused. The loop is restarted (pause +
+			// resume) only when the user's next step is not another `h` step.
 			stillHalted = s.env.Mgr.Flush(context.Background(), s.sel, "", false) != nil
-		}
-		if status != "run" {
-			// Halted, failed or cancelled loops do not serve flush requests:
-			// restart the loop the way a user would.
+			haltPending = true
+		} else if status != "run" && status != "halted" {
+			// Failed or cancelled loops do not serve flush requests: restart the
+			// loop the way a user would.
 			if st.Kind != 'c' {
 				if err := s.Pause(); err != nil {
 					return fail(err)
@@ -368,7 +403,7 @@ func (r *Runner) Run(idx int, g *Gen, h *History) (res Result) {
 		if status == "run" {
 			conflicts = conflictRoots(state.Conflicts)
 			roots = encRoots(conflicts)
-			if st.Kind == 'n' {
+			if st.Kind == 'n' || st.Kind == 'h' {
 				probs = flag(len(state.AlphaState.TransitionProblems) > 0) + flag(len(state.BetaState.TransitionProblems) > 0)
 			}
 		}
@@ -386,7 +421,7 @@ func (r *Runner) Run(idx int, g *Gen, h *History) (res Result) {
 		res.count("cycles")
 		res.count("cycle:" + string(st.Kind))
 		res.count("status:" + status)
-		if st.Kind != 'n' {
+		if st.Kind == 'f' || st.Kind == 'c' {
 			res.count("fault-op:" + st.Op)
 		}
 		if len(conflicts) > 0 {
@@ -452,6 +487,20 @@ func realDigests(e *core.Entry) *core.Entry { return e }
 // initialRoots draws the two roots a history starts from.
 func (g *Gen) initialRoots() (alpha, beta *core.Entry) {
 	base := g.dir(2, 1, 4, false)
+	if g.R.Intn(100) < g.P.RootInitPct {
+		// A root that does not exist yet or is a file while the other one is a
+		// directory: on the very first cycle (no ancestor) the alpha-wins modes
+		// plan a root deletion / root type change, which must halt.
+		switch g.R.Intn(4) {
+		case 0:
+			return nil, base
+		case 1:
+			return base, nil
+		case 2:
+			return g.file(), base
+		}
+		return base, g.file()
+	}
 	switch x := g.R.Intn(100); {
 	case x < g.P.SamePct:
 		if g.R.Chance(1, 3) {
